@@ -1,13 +1,18 @@
 (** C06 — Cycle times are honoured exactly, one part at a time, across interruptions.  Statements only.
-    PARTIAL: proved are the ingredients (timer = acceptance time + cycle in effect, one-shot offset floored at zero,
-    a FINISH event finds exactly its part, shutdown pauses / failure cancels the device's events, a resumed event keeps
-    its remaining delay (C07), cancelled events never run (C07), one part at a time (C02)); their composition into
-    "released after exactly cycle time of operational time" along a whole run is decided on the implementation by the
-    cycle-time monitor and the lock-step, not yet by one theorem. *)
+    Proved: the ingredients (timer = acceptance time + cycle in effect, one-shot offset floored at zero, a FINISH event finds
+    exactly its part, shutdown pauses / failure cancels the device's events, a resumed event keeps its remaining delay (C07),
+    cancelled events never run (C07), one part at a time (C02)), and at the level of the event queue (Proofs/FloorTimer.v,
+    FloorTimerInv.v), for every state reached without a Python exception, including every state inside a run: **a handler,
+    processor or sink has exactly one uncancelled FINISH_PROCESSING event of its own (pending, or paused) while a part is in
+    process, and none otherwise** ([C06_one_timer_per_part]) — no part is left without its timer, no stale timer survives a
+    failure (the defect D4), nothing is finished twice; the timer that fires is the one set at acceptance.
+    PARTIAL: the arithmetic composition "released after exactly the cycle time of operational time" along a whole run (timer value
+    at acceptance + the pause/unpause shifts of C07 + the unique timer) is not one theorem; it is decided on the implementation
+    by the cycle-time monitor and the lock-step. *)
 From Coq Require Import ZArith List Bool Lia Sorting.Permutation Sorting.Sorted.
 From RecordUpdate Require Import RecordUpdate.
 From SimVerif Require Import Model.Base Model.Env Model.FamEnv Model.RM Model.Maint Model.FloorTypes Model.Floor Model.FamFloor.
-From SimVerif Require Import Proofs.RMInv Proofs.EnvInv Proofs.EnvPause Proofs.FloorSteps Proofs.FloorInv Proofs.FloorSys Proofs.FloorProc Proofs.FloorFlow Proofs.FloorRes.
+From SimVerif Require Import Proofs.RMInv Proofs.EnvInv Proofs.EnvPause Proofs.FloorSteps Proofs.FloorInv Proofs.FloorSys Proofs.FloorProc Proofs.FloorFlow Proofs.FloorRes Proofs.FloorLink Proofs.FloorIdle Proofs.FloorLogInv Proofs.FloorTimer Proofs.FloorTimerInv.
 Import ListNotations.
 Open Scope Z_scope.
 
@@ -67,3 +72,71 @@ Example C06_nonvacuous :
   let x := (blank_dev KHandler) <| d_cycle := 24 |> <| d_offset := -8 |> in
   next_cycle x = 16 /\ next_cycle (x <| d_offset := -40 |>) = 0.
 Proof. split; reflexivity. Qed.
+
+(** * queue level: one live timer per part in process *)
+Theorem C06_one_timer_per_part : forall sc s d,
+  f_out (fq_world sc) = [] -> reach_in sc s ->
+  d_kind (getd (fst s) d) = KHandler \/ d_kind (getd (fst s) d) = KProcessor \/ d_kind (getd (fst s) d) = KSink ->
+  Z.of_nat (length (filter (isfin d) (queue (snd s)))) + Z.of_nat (length (filter (isfin d) (paused (snd s)))) =
+  match d_part (getd (fst s) d) with Some _ => 1 | None => 0 end.
+Proof.
+  intros sc s d O HR K. pose proof (one_timer_per_part sc s d O HR) as H. unfold cnt, cntl, busy in H.
+  destruct (d_part (getd (fst s) d)); apply H; destruct K as [K|[K|K]]; rewrite K; reflexivity.
+Qed.
+
+(** [isfin d e]: e is an uncancelled event of asset d whose action is the end of d's cycle *)
+Theorem C06_isfin_def : forall d (e : event fact),
+  isfin d e = true <-> e_asset e = d /\ e_cancelled e = false /\ e_act e = Some (AFinishCycle d).
+Proof.
+  intros d e. unfold isfin. split.
+  - intro H. apply andb_true_iff in H. destruct H as [H A]. apply andb_true_iff in H. destruct H as [H1 H2].
+    apply Z.eqb_eq in H1. apply negb_true_iff in H2. destruct (e_act e) as [[d'| | | | | |]|]; try discriminate. apply Z.eqb_eq in A. subst. auto.
+  - intros [A [B C]]. rewrite A, B, C, Z.eqb_refl. reflexivity.
+Qed.
+
+(** the premise on the initial world holds for every decoded scenario *)
+Theorem C06_decoded_scenarios_start_clean : forall l, f_out (fq_world (decode_fl_scn l)) = [].
+Proof. exact decoded_no_pending_output. Qed.
+
+(** the end of a cycle puts its own device right: its timer has just been taken off the queue *)
+Theorem C06_cycle_end_settles_its_device : forall ws nw skip en0 fuel w d,
+  tracked (d_kind (getd w d)) = true -> LT ws (fun d' => skip d' \/ d' = d) en0 w ->
+  (okf w = true -> forall en, venv ws en0 w = Ok en -> cnt d en = 0) ->
+  LT ws skip en0 (finish_cycle fuel nw w d).
+Proof. exact finish_fix. Qed.
+
+Print Assumptions C06_one_timer_per_part.
+Print Assumptions C06_isfin_def.
+Print Assumptions C06_cycle_end_settles_its_device.
+
+(** Non-vacuity (the history of defect D4): source -> processor (cycle 24) -> sink.  After three events the processor works on a
+    part, its timer (time 32) pending; it is shut down: the timer is paused; it fails while shut down: the part is lost and the
+    paused timer is cancelled — no live timer is left. *)
+Definition c06_world : fw :=
+  mkFw [(1, (blank_dev KSource) <| d_down := [2] |> <| d_cycle := 8 |>);
+        (2, (blank_dev KProcessor) <| d_up := [1] |> <| d_down := [3] |> <| d_cycle := 24 |>);
+        (3, (blank_dev KSink) <| d_up := [2] |>)] [] init_rs [] 10 [] [] 0.
+Definition c06_sc : fl_scn := mkFlScn 1 1 c06_world [] [].
+Definition c06_s0 := fst (do_fxop c06_sc (c06_world, init_env) FXInit).
+Definition c06_s3 := fx_steps c06_sc 3 c06_s0.
+Definition c06_sd := fst (do_fxop c06_sc c06_s3 (FXNow (UShutdown 2))).
+Definition c06_sf := fst (do_fxop c06_sc c06_sd (FXNow (UFailAt 2 16))).
+Definition c06_sg := fx_steps c06_sc 2 c06_sf.
+Example C06_timer_nonvacuous :
+  reach_in c06_sc c06_s3 /\ reach_in c06_sc c06_sd /\ reach_in c06_sc c06_sg /\
+  (busy (getd (fst c06_s3) 2), cntl 2 (queue (snd c06_s3)), cntl 2 (paused (snd c06_s3))) = (true, 1, 0) /\
+  (busy (getd (fst c06_sd) 2), cntl 2 (queue (snd c06_sd)), cntl 2 (paused (snd c06_sd))) = (true, 0, 1) /\
+  (busy (getd (fst c06_sg) 2), cntl 2 (queue (snd c06_sg)), cntl 2 (paused (snd c06_sg))) = (false, 0, 0) /\
+  map (fun e => (e_time e, e_cancelled e)) (paused (snd c06_sg)) = [(32, true)].
+Proof.
+  assert (R0 : reach_ok c06_sc c06_s0).
+  { apply ro_init; [vm_compute; reflexivity|]. unfold c06_s0. vm_compute. reflexivity. }
+  assert (R3 : reach_ok c06_sc c06_s3) by (apply fx_steps_reach; [exact R0|vm_compute; reflexivity]).
+  assert (Rd : reach_ok c06_sc c06_sd).
+  { apply (ro_op c06_sc c06_s3 (FXNow (UShutdown 2))); [exact R3|discriminate|]. unfold c06_sd. vm_compute. reflexivity. }
+  assert (Rf : reach_ok c06_sc c06_sf).
+  { apply (ro_op c06_sc c06_sd (FXNow (UFailAt 2 16))); [exact Rd|discriminate|]. unfold c06_sf. vm_compute. reflexivity. }
+  split; [apply reach_ok_in, R3|]. split; [apply reach_ok_in, Rd|].
+  split; [apply reach_ok_in, fx_steps_reach; [exact Rf|vm_compute; reflexivity]|].
+  repeat split; vm_compute; reflexivity.
+Qed.
